@@ -193,6 +193,7 @@ type crashRecord struct {
 	pre       []bcast // everything the killed incarnation had broadcast
 	valueAt   []types.Height
 	known     []V // values the killed Application incarnation knew (appAmnesic)
+	killCore  string
 	net       netState
 	inflight  *input
 	trace     []effect
@@ -315,7 +316,7 @@ func runPre(cfg *config, pre []sym, crash *crashSpec) (res preResult) {
 	switch {
 	case w.dead:
 		rec := &crashRecord{spec: *crash, dur: w.deadRef, committed: w.deadCommitted, pre: w.bcasts[0],
-			valueAt: append([]types.Height(nil), p.app.CallHeights...), known: p.app.knownList(), net: w.net, trace: w.effects}
+			valueAt: append([]types.Height(nil), p.app.CallHeights...), known: p.app.knownList(), net: w.net, trace: w.effects, killCore: w.killCore}
 		if crash.When == crashBefore {
 			// the effect that was about to happen is named by the caller (it is not in the trace)
 		} else {
@@ -509,6 +510,49 @@ func (x *explorer) loggedBeforeVisible(pre []sym, rec *crashRecord) {
 	}
 }
 
+// settledAfterFlush: effect k is a WAL flush and the action list it belongs to appends nothing after it. Right after
+// such a flush the log holds every input the machine has processed so far (nothing is pending, nothing of the current
+// list is still to be appended), so the durable log alone must rebuild exactly the machine the process has in memory.
+func settledAfterFlush(es []effect, k int) bool {
+	if es[k].Kind != 'F' {
+		return false
+	}
+	for _, e := range es[k+1:] {
+		if e.Batch == es[k].Batch && e.Inc == es[k].Inc && e.Kind == 'A' {
+			return false
+		}
+	}
+	return true
+}
+
+// rebuiltEqualsKilled: "it processes again exactly the inputs it had durably recorded, ending in the same consensus state
+// it would have reached without the crash" — at a settled instant (see settledAfterFlush) a real machine fed the durable
+// entries (with the killed Application incarnation) must be reflectively equal to the killed process's machine, vote
+// counter and its future-height buffer included. An input that the machine accepted (it changed its state) but that is
+// not in the log shows up here as soon as anything is flushed after it, long before it can cause an equivocation.
+func (x *explorer) rebuiltEqualsKilled(pre []sym, rec *crashRecord) {
+	if rec.killCore == "" {
+		return
+	}
+	x.stats["settled_state_comparisons"]++
+	key := fmt.Sprintf("state-rebuilt-from-durable-log-differs-from-killed-process [app=%s]", appNames[x.cfg.App])
+	r0 := replayRef(x.cfg, rec.committed, 0, rec.entries, true, rec.known)
+	if r0.core == rec.killCore || x.seen(key) {
+		return
+	}
+	x.violate(key, x.detail(pre, rec, nil, false, map[string]any{"rebuilt_from_durable_log": r0.core, "killed_process": rec.killCore,
+		"first_difference": firstDiff(r0.core, rec.killCore)}))
+}
+
+func firstDiff(a, b string) string {
+	i := 0
+	for i < len(a) && i < len(b) && a[i] == b[i] {
+		i++
+	}
+	lo := max(0, i-120)
+	return fmt.Sprintf("rebuilt: ...%s | killed: ...%s", a[lo:min(len(a), i+160)], b[lo:min(len(b), i+160)])
+}
+
 func calledValueAt(rec *crashRecord, h types.Height) bool {
 	for _, x := range rec.valueAt {
 		if x == h {
@@ -658,7 +702,7 @@ func (x *explorer) crashPoints(pre []sym, r *preResult) {
 		}
 		var recs [2]*crashRecord
 		for _, when := range []int{crashBefore, crashAfter} {
-			c := runPre(x.cfg, pre, &crashSpec{k, when})
+			c := runPre(x.cfg, pre, &crashSpec{k, when, when == crashAfter && settledAfterFlush(r.effects, k)})
 			x.stats["driver_runs"]++
 			if c.infra != "" {
 				x.infra = c.infra
@@ -680,6 +724,7 @@ func (x *explorer) crashPoints(pre []sym, r *preResult) {
 				continue
 			}
 			recs[when] = c.rec
+			x.rebuiltEqualsKilled(pre, c.rec)
 			addRec(c.rec)
 		}
 		if e.Kind == 'F' && recs[0] != nil && recs[1] != nil {
